@@ -261,6 +261,11 @@ def s_is_empty(m, callee, args, path, fn, dst, depth):
     return [(path, r * c == BV(0))]
 
 
+def s_matrix_len(m, callee, args, path, fn, dst, depth):
+    r, c = uf("nrows", mirse.Val, z3.BitVecSort(64))(args[0].id), uf("ncols", mirse.Val, z3.BitVecSort(64))(args[0].id)
+    return [(path, r * c)]
+
+
 def s_pure(tag):
     """uninterpreted pure function: result object remembers its arguments"""
     def h(m, callee, args, path, fn, dst, depth):
@@ -306,6 +311,8 @@ COMMON = [
     (r"Matrix::<.*>::nrows$", s_uf_usize("nrows")),
     (r"Matrix::<.*>::ncols$", s_uf_usize("ncols")),
     (r"impl Matrix<.*>>::is_empty$", s_is_empty),
+    (r"impl Matrix<.*>>::len$", s_matrix_len),
+    (r"Matrix::<.*>::len$", s_matrix_len),
 ]
 
 
